@@ -141,6 +141,13 @@ def check_events(events):
     return viol
 
 
+def contract_violations(events):
+    """the training script's contract used as a hypothesis by c20_pbt_clone_source_on_disk: a trial that has
+    reported has written its checkpoint before ('reported' events carry whether the directory existed)"""
+    return ["trial %d reported step %s but has no checkpoint directory" % (e[1], e[2])
+            for e in events if e[0] == "reported" and not e[3]]
+
+
 def wait_done(backend, trial_id, timeout=60):
     from syne_tune.backend.trial_status import Status
     t0 = time.time()
@@ -173,7 +180,9 @@ def stream_backend(tmp, delete_checkpoints=True):
         for t in (1, 2):
             backend.start_trial(config={"lr": 0.9}, checkpoint_trial_id=0)
         for t in (1, 2):
-            backend.events.append(("first_report", t, first_report(backend, t), backend.copied_step.get(t)))
+            step = first_report(backend, t)
+            backend.events.append(("reported", t, step, snapshot(backend.checkpoint_trial_path(t)) is not None))
+            backend.events.append(("first_report", t, step, backend.copied_step.get(t)))
     except Exception as e:
         crash = "%s: %s" % (type(e).__name__, str(e)[:120])
     finally:
@@ -198,6 +207,8 @@ def stream_tuner(tmp):
             self.seen = set()
 
         def on_trial_result(self, trial, status, result, decision):
+            backend.events.append(("reported", int(trial.trial_id), int(result["step"]),
+                                   snapshot(backend.checkpoint_trial_path(trial.trial_id)) is not None))
             if trial.trial_id not in self.seen:
                 self.seen.add(trial.trial_id)
                 backend.events.append(("first_report", int(trial.trial_id), int(result["step"]),
